@@ -22,9 +22,9 @@ reg("C14",
     name="C14_lifecycle_map", src="harness/C14_lifecycle_map.cpp",
     anchor_files=_ANCHORS,
     quick=dict(defs=dict(NCYC=3, NFAULT=1), symx=dict(shards=16, **{"max-wall": 900})),
-    thorough=dict(defs=dict(NCYC=4, NFAULT=2), symx=dict(shards=16, **{"max-wall": 3000, "shard-depth": 8})),
-    reach=["end", "clean_run", "child_removed_during_run", "three_instances", "child_start_fault", "child_eval_fault", "child_stop_fault",
-           "root_fault_with_live_children"],
+    thorough=dict(defs=dict(NCYC=4, NFAULT=2), symx=dict(shards=16, **{"max-wall": 3000, "shard-depth": 8}), reach=["three_instances"]),
+    reach=["end", "clean_run", "child_removed_during_run", "child_start_fault", "child_eval_fault", "child_stop_fault",
+           "child_stop_fault_at_key_removal", "child_stop_fault_at_shutdown", "root_fault_with_live_children"],
     bounds="root graph keysrc -> map_(child graph kidA -> kidB, built by the real wire_map / map_node) -> sink; keys {0,1}; one enumerated key "
            "operation per cycle from {nothing, set K0, set K1, erase K0, erase K1} (only effective erases), NCYC cycles, so child graphs are "
            "created, evaluated, removed and re-created during the run (at most NCYC instances); NFAULT fault descriptors (any node of any "
@@ -34,10 +34,28 @@ reg("C14",
     assumptions=["the executor is released by the caller right after run() returns or throws"],
     )
 
+reg("C14",
+    name="C14_lifecycle_reduce", src="harness/C14_lifecycle_reduce.cpp",
+    anchor_files=_ANCHORS + ["src/hgraph/runtime/reduce_node.cpp"],
+    quick=dict(defs=dict(NCYC=4, NFAULT=1, MAXINST=6, FAULTINST=3), symx=dict(shards=16, **{"max-wall": 900})),
+    thorough=dict(defs=dict(NCYC=5, NFAULT=2, MAXINST=8, FAULTINST=4), symx=dict(shards=16, **{"max-wall": 3000, "shard-depth": 8})),
+    reach=["end", "clean_run", "combiner_retired_during_run", "three_instances", "two_combiners_live_at_shutdown", "child_start_fault",
+           "child_eval_fault", "child_stop_fault", "child_stop_fault_at_key_removal", "child_stop_fault_at_shutdown", "root_fault_with_live_children"],
+    bounds="root graph keysrc -> reduce(combiner graph = one two-input node, built by the real wire_reduce_tsd / reduce_node, no zero) -> sink; "
+           "one enumerated key operation per cycle from {nothing, add the next unused key, erase the lowest live key, erase the highest live key}, "
+           "NCYC cycles (cycle 0 adds the first key), so the combiner tree grows, re-shapes and shrinks during the run (at most MAXINST combiner "
+           "instances, overflow asserted); NFAULT fault descriptors (one of the first FAULTINST combiner instances or a root node, phase in "
+           "{start, evaluate, stop}, evaluate occurrence symbolic); cleanup_on_error on/off; payload values symbolic",
+    outside="reduce over TSL; reduce with a zero input; lifted (kernel) combiners, which have no child graphs; switch_ children; observer callbacks that throw",
+    assumptions=["the executor is released by the caller right after run() returns or throws"],
+    )
+
 META = dict(
     level="bounded symbolic model checking of the real lifecycle code (graph.cpp start_impl/stop_impl/evaluate_impl, executor.cpp run_storage/stop_storage/"
           "~SimulationExecutorStorage, node.cpp start_impl/stop_impl, nested_graph_node.cpp, map_node.cpp create_entry_at_slot/remove_entry_at_slot/"
-          "map_node_stop, scope.h guards) under an enumerated fault script: every fault point and fault pair within the bound, clean-up on/off, request_stop",
-    note="the fault PAIR 'start fault + throwing stop during the start rollback' is asserted under its own id "
-         "C14.start_rollback_stops_remaining_nodes_after_failing_stop (see notes/C14.md); bounds in evidence coverage.harnesses[*].bounds",
+          "map_node_stop, reduce_node.cpp reduce_node_stop / retire path, scope.h guards) under an enumerated fault script: every fault point and fault pair within the bound, clean-up on/off, request_stop",
+    note="scenarios that exposed defects are asserted under their own ids so they can be told apart: "
+         "C14.start_rollback_stops_remaining_nodes_after_failing_stop, C14.map_stop_stops_remaining_children_after_failing_child_stop, "
+         "C14.reduce_stop_stops_remaining_combiners_after_failing_combiner_stop, C14.reduce_retired_combiner_stop_error_reaches_caller "
+         "(see notes/C14.md); bounds in evidence coverage.harnesses[*].bounds",
 )
